@@ -92,6 +92,12 @@ def classes_of(mod):
     return msgs, enums
 
 
+def instantiate(_cls_):
+    """cls() from a frame without other locals: pydantic builds a deferred model lazily at first instantiation and
+    resolves forward references against the *caller's* locals, so harness variable names must not leak in."""
+    return _cls_()
+
+
 def marker_of_message(cls) -> Optional[int]:
     import betterproto
 
